@@ -92,6 +92,9 @@ def _invalidates_cache(f):
 
 class rrulebase(object):
     def __init__(self, cache=False):
+        # Incremented whenever the recurrence set changes, so that iterators
+        # created before a change do not publish stale results
+        self._version = 0
         if cache:
             self._cache = []
             self._cache_lock = _thread.allocate_lock()
@@ -116,6 +119,7 @@ class rrulebase(object):
             self._cache_gen = self._iter()
 
         self._len = None
+        self._version += 1
 
     def _iter_cached(self):
         i = 0
@@ -127,20 +131,26 @@ class rrulebase(object):
             if i == len(cache):
                 acquire()
                 try:
-                    if self._cache_complete:
+                    # If the cache was invalidated after this iterator was
+                    # created, it keeps working on the old cache and must not
+                    # touch the state of the new one.
+                    current = self._cache is cache
+                    if current and self._cache_complete:
                         break
                     try:
                         for j in range(10):
                             cache.append(advance_iterator(gen))
                     except StopIteration:
-                        self._cache_gen = gen = None
-                        self._cache_complete = True
+                        gen = None
+                        if current:
+                            self._cache_gen = None
+                            self._cache_complete = True
                         break
                 finally:
                     release()
             yield cache[i]
             i += 1
-        while i < self._len:
+        while i < len(cache):
             yield cache[i]
             i += 1
 
@@ -1382,6 +1392,7 @@ class rruleset(rrulebase):
         self._exdate.append(exdate)
 
     def _iter(self):
+        version = self._version
         rlist = []
         self._rdate.sort()
         self._genitem(rlist, iter(self._rdate))
@@ -1411,7 +1422,9 @@ class rruleset(rrulebase):
             advance_iterator(ritem)
             if rlist and rlist[0] is ritem:
                 heapq.heapreplace(rlist, ritem)
-        self._len = total
+        if version == self._version:
+            # Only valid if nothing was added while this iterator was running
+            self._len = total
 
 
 
